@@ -174,8 +174,49 @@ def check(pm: ProgramModel, ctx: Ctx) -> None:
                   "repeating execute on the same model gives the same result",
                   bad=f"{ci.name}: repeated execution changes the result ({_short(third)} vs "
                       f"{_short(fresh)})")
+    # history across operation objects: state keyed by names must not survive from one model to the next
+    from ..absint import reset_global_state
+    from ..model import twin_model
+    for ci in ops:
+        if ci.name in MUTATING:
+            continue
+        where = loc(ci.unit.path, ci.node)
+        try:
+            ita = Interp(pm, max_depth=60)
+            natives(ita)
+            ma = rich_model(mb)
+            opa = setup_op(pm, ita, ci, mb, ma)
+            ita.call(pm.method(ci, "execute"), [opa, ma])
+            mt = twin_model(rich_model(mb))
+            itb = Interp(pm, max_depth=60)
+            natives(itb)
+            opb = setup_op(pm, itb, ci, mb, mt)
+            itb.call(pm.method(ci, "execute"), [opb, mt])
+            after = canon(itb.call(pm.method(ci, "get_result"), [opb]))
+            reset_global_state()
+            mt2 = twin_model(rich_model(mb))
+            itc = Interp(pm, max_depth=60)
+            natives(itc)
+            opc = setup_op(pm, itc, ci, mb, mt2)
+            itc.call(pm.method(ci, "execute"), [opc, mt2])
+            fresh = canon(itc.call(pm.method(ci, "get_result"), [opc]))
+        except (AbsRaise, AbsMutation) as exc:
+            ctx.violation("C19-HISTORY", f"history:{ci.name}", where, f"{ci.name}: raises {exc.what}")
+            continue
+        ctx.check(_strip_ids(after) == _strip_ids(fresh), "C19-HISTORY", f"history:{ci.name}", where,
+                  "a new operation object analysing a second model gives the result of a fresh process",
+                  bad=f"{ci.name}: the result for a model depends on a model analysed earlier by another "
+                      f"operation object (process-wide state): {_short(after)} vs {_short(fresh)}")
     genattr(pm, ctx, mb)
     ctx.floor(rule, "obligations", len(ctx.obligations), 30)
+
+
+def _strip_ids(v: Any) -> Any:
+    if isinstance(v, tuple) and len(v) == 2 and v[0] in ("FM",) :
+        return ("FM",)
+    if isinstance(v, (list, tuple)):
+        return [_strip_ids(x) for x in v]
+    return v
 
 
 def _short(v: Any) -> str:
